@@ -219,8 +219,11 @@ def run(pid: str, tier: str, seed: int, args: argparse.Namespace, t0: float) -> 
         "wall_s": round(time.time() - t0, 2),
         "violations": (1 if violation_path else 0),
     }
-    (VERIF / "evidence").mkdir(exist_ok=True)
-    (VERIF / "evidence" / f"{pid}.json").write_text(json.dumps(evidence, indent=1, default=str))
+    # (VERIF_EVIDENCE_DIR: development aid used together with VERIF_REPO, so that trying a seeded defect in a
+    # scratch worktree does not overwrite the evidence of the run against /repo)
+    evdir = type(VERIF)(os.environ["VERIF_EVIDENCE_DIR"]) if os.environ.get("VERIF_EVIDENCE_DIR") else VERIF / "evidence"
+    evdir.mkdir(parents=True, exist_ok=True)
+    (evdir / f"{pid}.json").write_text(json.dumps(evidence, indent=1, default=str))
 
     if violation_path is not None:
         rel = os.path.relpath(violation_path, VERIF)
